@@ -1049,9 +1049,24 @@ def remap_by_types(
             t_true = self.lookup_type(t_node.body)
             t_false = self.lookup_type(t_node.orelse)
 
+            def same_spelled_differently(a, b) -> bool:
+                """`typing.Iterable[Jet]` and `collections.abc.Iterable[Jet]` are two spellings
+                of one type (python does not call them equal), at any depth"""
+                if a == b:
+                    return True
+                a_args, b_args = get_args(a), get_args(b)
+                return (
+                    get_origin(a) is not None
+                    and get_origin(a) is get_origin(b)
+                    and len(a_args) == len(b_args)
+                    and all(same_spelled_differently(x, y) for x, y in zip(a_args, b_args))
+                )
+
             def merged(a, b) -> Any:
                 "The type of something that is an `a` or a `b` (None if they do not go together)"
                 if a == b:
+                    return a
+                if same_spelled_differently(a, b):
                     return a
                 if a in [int, float, Any] and b in [int, float, Any]:
                     return float
